@@ -22,6 +22,7 @@ from sa.terms import T
 from sa.pyfront import Program
 
 RULES = {
+    "R-C16-f": "the compiled kernels called from the tasks write only buffers allocated inside the same call (no module-level / `global` workspace shared by the pool threads, whose merge loops run without the GIL)",
     "R-C16-a": "every write inside a pool task is task-local, reached through region[tuple(flattened_slice)] with a task-argument-only index, or a named diagnostic",
     "R-C16-b": "whole-region (unpartitioned) access happens only when there is exactly one task; block coordinates are the concatenation of the task's own coordinates",
     "R-C16-c": "dispatch is a blocking, re-raising pool call (map/starmap) on a pool object created for this call",
@@ -94,7 +95,10 @@ def analyse_one(prog, module, clsname, rep):
                 if a is not None and a.op == "iter" and it_pool is not None:
                     ok = _same_modulo_ids(a.args[0], it_pool, I)
                     detail = "serial iterates %s, pool maps over %s" % (tm.show(a.args[0])[:60], tm.show(it_pool)[:60])
-        rep.check(ok, "R-C16-d", where, "serial branch runs %s over the same iterable" % task_fi.qualname.split(".")[-1], "same closure, structurally identical iterable", detail)
+        if not ser:
+            rep.undecided("R-C16-d", where, "serial branch runs %s over the same iterable" % task_fi.qualname.split(".")[-1], detail + " (the serial form is not one the analysis recognises)")
+        else:
+            rep.check(ok, "R-C16-d", where, "serial branch runs %s over the same iterable" % task_fi.qualname.split(".")[-1], "same closure, structurally identical iterable", detail)
         # pooled and serial under complementary guards of one test
         if ser and disp_ev:
             gp = [(tm.show(c), p) for c, p in disp_ev[0].guards]
@@ -324,6 +328,12 @@ def main(tier):
     prog = Program()
     for module, cls in (("ccubes", "ccube"), ("xcubes", "xcube")):
         analyse_one(prog, module, cls, rep)
+    from sa import cyfront, cystate
+    kn = 0
+    for status, where, cons, detail in cystate.analyse(cyfront.load()):
+        kn += 1
+        rep.add("R-C16-f", where, cons, status, detail, True, {"history": "pooled ccube evaluation with poolsize >= 2: two tasks intersect into the same workspace at once and one receives the other's row ids"} if status == "VIOLATED" else None)
+    rep.floor("R-C16-f", 4, kn)
     slices1d_rule(prog, rep)
     n = rep.floors.pop("R-C16-a", (0, 0))
     rep.floor("R-C16-a", n[0], n[1])
